@@ -75,61 +75,61 @@ theorem derived_isAdjW {ρ : K → K} (hρ : Test ρ) (env : Nat → Op K) (henv
   | .add a b, hw, hs => by
     simp only [wf, Bool.and_eq_true, beq_iff_eq] at hw
     obtain ⟨⟨⟨ha, hb⟩, hi⟩, ho⟩ := hw
-    simp only [run, Op.memo_eq]
+    simp only [run]
     exact add_isAdjW hρ (derived_isAdjW hρ env henv a ha hs.1) (derived_isAdjW hρ env henv b hb hs.2) hi ho
   | .sub a b, hw, hs => by
     simp only [wf, Bool.and_eq_true, beq_iff_eq] at hw
     obtain ⟨⟨⟨ha, hb⟩, hi⟩, ho⟩ := hw
-    simp only [run, Op.memo_eq]
+    simp only [run]
     exact sub_isAdjW hρ (derived_isAdjW hρ env henv a ha hs.1) (derived_isAdjW hρ env henv b hb hs.2) hi ho
   | .neg a, hw, hs => by
     simp only [wf] at hw
-    simp only [run, Op.memo_eq]
+    simp only [run]
     exact neg_isAdjW hρ (derived_isAdjW hρ env henv a hw hs)
   | .smul c a, hw, hs => by
     simp only [wf] at hw
-    simp only [run, Op.memo_eq]
+    simp only [run]
     exact smul_isAdjW (derived_isAdjW hρ env henv a hw hs.2) hs.1
   | .sdiv c a, hw, hs => by
     simp only [wf] at hw
-    simp only [run, Op.memo_eq]
+    simp only [run]
     exact sdiv_isAdjW (derived_isAdjW hρ env henv a hw hs.2.2) hs.2.1
   | .comp a b, hw, hs => by
     simp only [wf, Bool.and_eq_true, beq_iff_eq] at hw
     obtain ⟨⟨ha, hb⟩, hi⟩ := hw
-    simp only [run, Op.memo_eq]
+    simp only [run]
     exact comp_isAdjW (derived_isAdjW hρ env henv a ha hs.1) (derived_isAdjW hρ env henv b hb hs.2) hi
   | .tr c a, hw, hs => by
     simp only [wf] at hw
-    simp only [run, Op.memo_eq]
+    simp only [run]
     exact tr_isAdjW hρ (derived_isAdjW hρ env henv a hw hs) c
   | .herm a, hw, hs => by
     simp only [wf] at hw
-    simp only [run, Op.memo_eq]
+    simp only [run]
     exact herm_isAdjW hρ (derived_isAdjW hρ env henv a hw hs)
   | .cj a, hw, hs => by
     simp only [wf] at hw
-    simp only [run, Op.memo_eq]
+    simp only [run]
     exact cj_isAdjW hρ (derived_isAdjW hρ env henv a hw hs)
   | .gram a, hw, hs => by
     simp only [wf] at hw
-    simp only [run, Op.memo_eq]
+    simp only [run]
     exact gram_isAdjW hρ (derived_isAdjW hρ env henv a hw hs)
   | .vnil n, _, _ => by simpa [run] using vnil_isAdjW n
   | .vcons a s, hw, hs => by
     simp only [wf, Bool.and_eq_true, beq_iff_eq] at hw
     obtain ⟨⟨ha, hb⟩, hi⟩ := hw
-    simp only [run, Op.memo_eq]
+    simp only [run]
     exact vcons_isAdjW hρ (derived_isAdjW hρ env henv a ha hs.1) (derived_isAdjW hρ env henv s hb hs.2) hi
   | .dnil, _, _ => by simpa [run] using dnil_isAdjW
   | .dcons a s, hw, hs => by
     simp only [wf, Bool.and_eq_true] at hw
-    simp only [run, Op.memo_eq]
+    simp only [run]
     exact dcons_isAdjW hρ (derived_isAdjW hρ env henv a hw.1 hs.1) (derived_isAdjW hρ env henv s hw.2 hs.2)
   | .drep k Qi Qo a, hw, hs => by
     simp only [wf, Bool.and_eq_true, beq_iff_eq, decide_eq_true_eq] at hw
     obtain ⟨⟨⟨⟨⟨ha, hQi⟩, hQo⟩, hmi⟩, hmo⟩, hk⟩ := hw
-    simp only [run, Op.memo_eq]
+    simp only [run]
     obtain ⟨Pi, hPi⟩ := Nat.dvd_of_mod_eq_zero hmi
     obtain ⟨Po, hPo⟩ := Nat.dvd_of_mod_eq_zero hmo
     exact drep_isAdjW hρ (derived_isAdjW hρ env henv a ha hs) hk hQi hQo
@@ -138,6 +138,6 @@ theorem derived_isAdjW {ρ : K → K} (hρ : Test ρ) (env : Nat → Op K) (henv
 /-- dimensions are those scico declares: `.T`/`.H` swap, composition takes them from the ends, stacks add up -/
 theorem run_dims_herm (env : Nat → Op K) (a : Expr K) :
     (run env (.herm a)).nin = (run env a).nout ∧ (run env (.herm a)).nout = (run env a).nin := by
-  simp [run, Op.memo_eq, Op.herm]
+  simp [run, Op.herm]
 
 end Scico.Adjoint
